@@ -234,7 +234,7 @@ Proof.
         exists r1'. cbn [eval_seq]. rewrite E2. split; assumption.
 Qed.
 
-Lemma eval_collapse l s : eval (match l with [x] => x | _ => Seq l end) s = eval_seq l s.
+Lemma eval_collapse l s : eval (match l with [] => Seq [] | [x] => x | x :: y :: t => Seq (x :: y :: t) end) s = eval_seq l s.
 Proof. destruct l as [|x [|y t]]; reflexivity. Qed.
 
 Lemma Forall_app_l {A} (P : A -> Prop) l1 l2 : Forall P (l1 ++ l2) -> Forall P l1.
@@ -242,9 +242,13 @@ Proof. intros H. apply Forall_app in H. tauto. Qed.
 Lemma Forall_app_r {A} (P : A -> Prop) l1 l2 : Forall P (l1 ++ l2) -> Forall P l2.
 Proof. intros H. apply Forall_app in H. tauto. Qed.
 
-Theorem simplify_sound_gen : forall e, sound e.
+Lemma simplify_sound_aux : forall e, sound e /\ match e with Lam _ _ _ _ b => sound b | _ => True end.
 Proof.
-  induction e using expr_ind2; unfold sound; intros S r r' o v r1 o1 Hwf H1 H2 H0 Hag Hev.
+  induction e using expr_ind2.
+  all: try (destruct IHe as [IHe IHe']); try (destruct IHe1 as [IHe1 _]; destruct IHe2 as [IHe2 _]; destruct IHe3 as [IHe3 _]).
+  all: try (apply Forall_impl with (Q := sound) in H; [|intros ? [? _]; assumption]).
+  all: (split; [|try exact I]); try exact IHe.
+  all: unfold sound; intros S r r' o v r1 o1 Hwf H1 H2 H0 Hag Hev.
   - (* Lit *) cbn in *. inversion Hev; subst. exists r'. split; [reflexivity|exact Hag].
   - (* Obj *) cbn in *. inversion Hev; subst. exists r'. split; [reflexivity|exact Hag].
   - (* Ref *)
@@ -310,7 +314,7 @@ Proof.
       destruct (let_subst id sv ps (map (fun a => simplify a S true) args) S) as [[ps2 args2] S2] eqn:ELS.
       cbn [wf] in Wf. apply andb_prop in Wf. destruct Wf as [Wf Wid0]. apply andb_prop in Wf. destruct Wf as [Wf Wfresh].
       apply andb_prop in Wf. destruct Wf as [Wf Wnd]. apply andb_prop in Wf. destruct Wf as [Wbody Wsv].
-      cbn [lam_ids] in H2f. inversion H2f as [|? ? Hid H2body]; subst. cbn [assigned] in H1f.
+      cbn [lam_ids] in H2f. inversion H2f as [|? ? Hid H2bd]; subst. cbn [assigned] in H1f.
       assert (forall p, In p ps -> lookup_subst p id S = None) as Hfr by (intros; apply lookup_subst_none_loc; exact Hid).
       destruct (let_subst_sound id sv ps _ S ps2 args2 S2 vs (r', o) (r2', o2) r2 r2' ELS
                   ltac:(rewrite map_length; exact ELen) (nodupb_NoDup _ Wnd) Hfr E2 A2)
@@ -330,12 +334,12 @@ Proof.
         destruct (P3 _ _ _ Ec') as [Hs|(El & _)]; [|contradiction].
         rewrite (lookup_subst_none_loc y l S Hl) in Hs. discriminate. }
       assert (C2 S2 e) as H2body.
-      { unfold C2. rewrite Forall_forall in H2body |- *. intros l Hl. apply Hdom; [apply H2body; exact Hl|].
+      { unfold C2. rewrite Forall_forall in H2bd |- *. intros l Hl. apply Hdom; [apply H2bd; exact Hl|].
         intros ->. apply negb_true_iff in Wfresh. apply memZ_false in Wfresh. contradiction. }
       assert (~ In 0 (sdom S2)) as H0'.
       { apply Hdom; [exact H0|]. apply negb_true_iff in Wid0. apply Z.eqb_neq in Wid0. congruence. }
       destruct (eval e (bind id ps vs r2, o2)) as [vb [rb ob]] eqn:Eb. inversion Hev; subst vb r1 ob. clear Hev.
-      destruct (IHe S2 _ _ o2 v rb o1 Wbody H1body H2body H0' A3 Eb) as (r1' & E4 & A4).
+      destruct (IHe' S2 _ _ o2 v rb o1 Wbody H1body H2body H0' A3 Eb) as (r1' & E4 & A4).
       exists (pop id r1'). rewrite eval_App_Lam. rewrite (proj2 (Nat.eqb_eq _ _) L3), E3, E4. split; [reflexivity|].
       destruct A4 as [A41 A42]. destruct Hag as [G1 G2]. split.
       * intros x l c Hx. rewrite lookup_pop.
@@ -358,4 +362,54 @@ Proof.
       destruct (prim_eval o0 vs) as [c|] eqn:EP.
       * exists r'. cbn [eval]. split; [reflexivity|exact A2].
       * discriminate.
+  - (* Op *) cbn in Hev. discriminate.
 Qed.
+
+Theorem simplify_sound_gen : forall e, sound e.
+Proof. intros e. apply simplify_sound_aux. Qed.
+
+(** the pass as it is applied to the body of a lambda (empty substitution list): a program of the let-fragment with a
+    defined result keeps its result and its output; all variables keep their values. *)
+Theorem simplify_sound_body : forall e r o v r1 o1,
+  wf e = true -> eval e (r, o) = (Some v, (r1, o1)) ->
+  exists r1', eval (simplify e [] true) (r, o) = (Some v, (r1', o1)) /\ forall x l, lookup x l r1 = lookup x l r1'.
+Proof.
+  intros e r o v r1 o1 Hwf Hev.
+  destruct (simplify_sound_gen e [] r r o v r1 o1 Hwf) as (r1' & E & A1 & A2); auto.
+  - unfold C1. apply Forall_forall. reflexivity.
+  - unfold C2. apply Forall_forall. intros x _ [].
+  - split; [intros x l c Hx; discriminate|reflexivity].
+  - exists r1'. split; [exact E|]. intros x l. apply A2. reflexivity.
+Qed.
+
+(** sub-lemmas of the design, as corollaries / direct facts *)
+Theorem fold_only_when_value : forall o args S il c,
+  simplify (App (Op o) args) S il = Lit c ->
+  exists cs, all_simple (map (fun a => simplify a S il) args) = Some cs /\ prim_eval o cs = Some c /\ is_arith o = true.
+Proof.
+  intros o args S il c H. cbn [simplify] in H.
+  destruct (is_arith o); [|discriminate].
+  destruct (all_simple (map (fun a => simplify a S il) args)) as [cs|]; [|discriminate].
+  destruct (prim_eval o cs) as [r|] eqn:E; [|discriminate]. inversion H; subst. exists cs. auto.
+Qed.
+
+Theorem dead_branch_sound : forall c a b S il,
+  simplify (Cnd (Lit c) a b) S il = if const_false c then simplify b S il else simplify a S il.
+Proof. reflexivity. Qed.
+
+(** non-vacuity: a program with shadowing, an assigned parameter, a foldable test and dropped statements *)
+Definition ex_prog : expr :=
+  App (Lam 1 [10; 11] false [11] (Seq [Ref 10 1; SetE 11 1 (App (Op 0) [Ref 11 1; Ref 10 1]);
+                                        App (Ref OUT 0) [Ref 11 1];
+                                        Cnd (App (Op 0) [Lit (CInt 1)]) (App (Lam 2 [10] false [] (App (Op 1) [Ref 10 2; Ref 11 1])) [Lit (CInt 3)]) (Lit (CInt 0))]))
+      [Lit (CInt 5); Lit (CInt 7)].
+
+Example ex_prog_defined : wf ex_prog = true /\ eval ex_prog ([], []) = (Some (CInt 36), ([], [CInt 12])).
+Proof. vm_compute. split; reflexivity. Qed.
+
+Example ex_prog_simplified :
+  simplify ex_prog [] true
+  = App (Lam 1 [11] false [11] (Seq [SetE 11 1 (App (Op 0) [Ref 11 1; Lit (CInt 5)]); App (Ref OUT 0) [Ref 11 1];
+                                       App (Lam 2 [] false [] (App (Op 1) [Lit (CInt 3); Ref 11 1])) []])) [Lit (CInt 7)]
+  /\ eval (simplify ex_prog [] true) ([], []) = (Some (CInt 36), ([], [CInt 12])).
+Proof. vm_compute. split; reflexivity. Qed.
